@@ -478,6 +478,71 @@ configured (then it is never consulted), and every tenant has a key (`TenantConf
 def MTCfg.wf (m : MTCfg) : Prop :=
   (m.tenants = [] → m.dflt.enabled = true) ∧ ∀ p ∈ m.tenants, p.2.enabled = true
 
+theorem load_enabled {raw : RawCfg} {c : Cfg} (h : raw.load = some c) : c.enabled = raw.enabled := by
+  unfold RawCfg.load at h
+  split at h
+  · cases h
+  · simp only [Option.some.injEq] at h
+    subst h
+    rfl
+
+theorem mapM_load_mem {tenants : List (String × RawCfg)} {ts : List (String × Cfg)}
+    (h : tenants.mapM (fun p => p.2.load.map (fun c => (p.1, c))) = some ts) :
+    (tenants = [] ↔ ts = []) ∧
+    ∀ q ∈ ts, ∃ p ∈ tenants, p.1 = q.1 ∧ p.2.load = some q.2 := by
+  induction tenants generalizing ts with
+  | nil =>
+    simp only [List.mapM_nil] at h
+    cases h
+    simp
+  | cons p rest ih =>
+    rw [List.mapM_cons] at h
+    cases hp : p.2.load with
+    | none => simp [hp] at h
+    | some c =>
+      cases hr : rest.mapM (fun p => p.2.load.map (fun c => (p.1, c))) with
+      | none => simp [hp, hr] at h
+      | some tl =>
+        simp only [hp, hr, Option.map_some, Option.bind_eq_bind, Option.bind_some, Option.pure_def,
+          Option.some.injEq] at h
+        subst h
+        refine ⟨by simp, ?_⟩
+        intro q hq
+        simp only [List.mem_cons] at hq
+        rcases hq with rfl | hq
+        · exact ⟨p, by simp, rfl, hp⟩
+        · obtain ⟨p', hp', e1, e2⟩ := (ih hr).2 q hq
+          exact ⟨p', by simp [hp'], e1, e2⟩
+
+/-- the verifiers `server.go` wires from configurations that pass `Validate` (every tenant's
+auth enabled) satisfy `MTCfg.wf`: the hypothesis of the C09/C10 soundness theorems is what
+production establishes. -/
+theorem wire_wf {dflt : RawCfg} {tenants : List (String × RawCfg)} {m : MTCfg}
+    (hval : ∀ p ∈ tenants, p.2.enabled = true) (h : wire dflt tenants = some (some m)) : m.wf := by
+  unfold wire at h
+  split at h
+  · cases h
+  · rename_i hen
+    cases hd : dflt.load with
+    | none => simp [hd] at h
+    | some d =>
+      cases ht : tenants.mapM (fun p => p.2.load.map (fun c => (p.1, c))) with
+      | none => simp [hd, ht] at h
+      | some ts =>
+        simp only [hd, ht, Option.some.injEq] at h
+        subst h
+        obtain ⟨hemp, hmem⟩ := mapM_load_mem ht
+        constructor
+        · intro hts
+          have hte : tenants = [] := hemp.mpr hts
+          rw [load_enabled hd]
+          simp only [hte, List.isEmpty_nil, Bool.and_true, Bool.not_eq_true', Bool.not_eq_false] at hen
+          simpa using hen
+        · intro q hq
+          obtain ⟨p, hp, _, hl⟩ := hmem q hq
+          rw [load_enabled hl]
+          exact hval p hp
+
 theorem verifyMT_no_panic {m : MTCfg} (hwf : m.wf) (now : Int) (tok : TokenFacts) (tenant : String) :
     verifyMT m now tok tenant ≠ .panic := by
   intro h
